@@ -6,6 +6,10 @@
             | sl<code>[o|f|e] | snl<code>[o|f|e]          status with a body (code ≠ 200, 204, 304, ≥ 200), length announced / not
             | bl204 | bl304 | blz204 | blz304             bodiless, without / with `Content-Length: 0`
             | xn<k> | xl<k> | sx<code> | sy<code> | sz<code>_<k>
+            | q<infos>_<final>_<delta>_<cuts>             a reply delivered in pieces (harness/peer.py):
+                infos ∈ {c,C,p,P,e,E}*  (100 / 102 / 103; upper case: pause after it)
+                final = ok | s<code>[o|f|e|h] | b204 | b304
+                delta ∈ {=,+,~,-,n}  (ok: not n; b: = or n)      cuts = l? h? b?
       → one outcome per call: r<tok> | te<code> | o:<kind>
     Anything else (unknown behaviour, a code outside the domain) answers `bad-op`.
 -/
@@ -28,6 +32,54 @@ def codeBody? (cs : List Char) : Option (ErrCode × Body) :=
   | 'e' :: ds => (errCode? (String.ofList ds.reverse)).map (·, Body.errObj)
   | _ => (errCode? (String.ofList cs)).map (·, Body.text)
 
+/-- `<digits><suffix>` with suffix ∈ {"", "o", "f", "e", "h"} (replies delivered in pieces). -/
+def codeBodyQ? (cs : List Char) : Option (ErrCode × Body) :=
+  match cs.reverse with
+  | 'h' :: ds => (errCode? (String.ofList ds.reverse)).map (·, Body.httpReply)
+  | _ => codeBody? cs
+
+def info? : Char → Option Info
+  | 'c' => some (.continue100 false) | 'C' => some (.continue100 true)
+  | 'p' => some (.other false false) | 'P' => some (.other false true)
+  | 'e' => some (.other true false) | 'E' => some (.other true true)
+  | _ => none
+
+def cuts? (s : String) : Option Cuts :=
+  match s with
+  | "" => some ⟨false, false, false⟩ | "l" => some ⟨true, false, false⟩ | "h" => some ⟨false, true, false⟩
+  | "b" => some ⟨false, false, true⟩ | "lh" => some ⟨true, true, false⟩ | "lb" => some ⟨true, false, true⟩
+  | "hb" => some ⟨false, true, true⟩ | "lhb" => some ⟨true, true, true⟩
+  | _ => none
+
+def delta? (s : String) : Option Delta :=
+  match s with
+  | "=" => some .exact | "+" => some (.long false) | "~" => some (.long true) | "-" => some .short
+  | _ => none
+
+def final? (f d : String) : Option Final :=
+  match f, d with
+  | "ok", d => (delta? d).map .ok
+  | "b204", "=" => some (.bodiless false true) | "b204", "n" => some (.bodiless false false)
+  | "b304", "=" => some (.bodiless true true) | "b304", "n" => some (.bodiless true false)
+  | f, d =>
+    match f.toList with
+    | 's' :: ds =>
+      match codeBodyQ? ds, d with
+      | some p, "n" => some (.status p.1 p.2 none)
+      | some p, d => (delta? d).map fun dl => .status p.1 p.2 (some dl)
+      | none, _ => none
+    | _ => none
+
+/-- `q<infos>_<final>_<delta>_<cuts>` (the leading `q` already removed). -/
+def reply? (s : String) : Option Reply :=
+  match s.splitOn "_" with
+  | [i, f, d, c] => do
+    let infos ← i.toList.mapM info?
+    let final ← final? f d
+    let cuts ← cuts? c
+    pure ⟨infos, final, cuts⟩
+  | _ => none
+
 def beh? (s : String) : Option Beh :=
   match s with
   | "ok" => some .okKeep | "okc" => some .okClose | "down" => some .down | "cbr" => some .closeBeforeReply
@@ -49,6 +101,7 @@ def beh? (s : String) : Option Beh :=
       | _ => none
     | 'x' :: 'n' :: ds => (String.ofList ds).toNat?.map .okExtraNow
     | 'x' :: 'l' :: ds => (String.ofList ds).toNat?.map .okThenLate
+    | 'q' :: ds => (reply? (String.ofList ds)).map .scripted
     | _ => none
 
 def lib? (s : String) : Option Lib :=
